@@ -113,7 +113,48 @@ def adapt(schema, version):
     return schema
 
 
-def make_operation_document(rng: random.Random, version: str, *, with_security=False, negative_friendly=False):
+def compose(rng: random.Random, depth: int = 0):
+    """A random composition of pool schemas that stays satisfiable by construction: objects (required subsets, closed or
+    open), arrays (small size bounds, no uniqueItems), anyOf / oneOf over schemas of different types, nullable wrappers,
+    one level of nesting."""
+    pick = lambda: copy.deepcopy(rng.choice(PRIMITIVES)[0])
+    kind = rng.choice(["object", "object", "array", "anyOf", "oneOf", "nullable", "nested"] if depth == 0 else ["object", "array", "nullable"])
+    if kind == "object":
+        names = rng.sample(["a", "b", "c", "d-e", "f g", "on"], rng.randint(1, 4))
+        schema = {"type": "object", "properties": {n: pick() for n in names}}
+        required = [n for n in names if rng.random() < 0.6]
+        if required:
+            schema["required"] = required
+        if rng.random() < 0.4:
+            schema["additionalProperties"] = False
+        return schema
+    if kind == "array":
+        schema = {"type": "array", "items": pick()}
+        lo = rng.choice([None, 0, 1, 2])
+        hi = rng.choice([None, 2, 3, 5])
+        if lo is not None:
+            schema["minItems"] = lo
+        if hi is not None:
+            schema["maxItems"] = hi
+        return schema
+    if kind in ("anyOf", "oneOf"):
+        # different JSON types, so that exactly one branch matches any value (oneOf stays satisfiable)
+        by_type = {}
+        for candidate, _ in PRIMITIVES:
+            if not candidate.get("nullable"):
+                by_type.setdefault(candidate["type"], []).append(candidate)
+        by_type.pop("number", None)  # integers are numbers too
+        types = rng.sample(sorted(by_type), 2)
+        return {kind: [copy.deepcopy(rng.choice(by_type[t])) for t in types]}
+    if kind == "nullable":
+        schema = pick()
+        schema["nullable"] = True
+        return schema
+    inner = compose(rng, depth + 1)
+    return {"type": "object", "properties": {"inner": inner, "list": {"type": "array", "items": compose(rng, depth + 1), "maxItems": 2}}, "required": ["inner"]}
+
+
+def make_operation_document(rng: random.Random, version: str, *, with_security=False, negative_friendly=False, composite=False):
     """One operation `POST /op/{p}` (or GET without body) whose inputs are drawn from the pools.
 
     -> (doc, description) where description lists, per location, the declared parameters:
@@ -168,6 +209,8 @@ def make_operation_document(rng: random.Random, version: str, *, with_security=F
     if rng.random() < 0.7:
         method = "post"
         schema, _ = rng.choice(OBJECTS + PRIMITIVES[:6] + ARRAYS[:2])
+        if composite and rng.random() < 0.6:
+            schema = compose(rng)
         required = rng.random() < 0.7
         if three:
             media = rng.choice([["application/json"], ["application/json", "application/x-www-form-urlencoded"]]) if schema.get("type") == "object" and "additionalProperties" not in schema else ["application/json"]
